@@ -309,14 +309,6 @@ theorem scheduled_envOf (st : State) (σ : Sched) (t : Task) : Scheduled (envOf 
   rw [hb]
   cases t.optional <;> simp
 
-/-- tasks a constraint body of the core fragment mentions -/
-def CBody.coreTasks : CBody → List Task
-  | .startAt t _ | .startAfter t _ _ | .endAt t _ | .endBefore t _ _ => [t]
-  | .precedence a b _ _ | .startSynced a b | .endSynced a b | .dontOverlap a b | .dependency a b => [a, b]
-  | .forceSchedule t _ | .conditionSchedule t _ => [t]
-  | .forceScheduleN ts _ _ => ts
-  | _ => []
-
 /-- the documented meaning of the constraint classes of the core fragment, on a schedule -/
 def CoreMeaning (st : State) (σ : Sched) : CBody → Prop
   | .startAt t v => σ.isSched t = true → σ.start t.name = v
